@@ -22,6 +22,7 @@ import (
 	"github.com/vx-labs/mqtt-protocol/packet"
 	"github.com/vx-labs/wasp/v4/wasp"
 	"github.com/vx-labs/wasp/v4/wasp/ack"
+	"github.com/vx-labs/wasp/v4/wasp/api"
 	"github.com/vx-labs/wasp/v4/wasp/audit"
 	"github.com/vx-labs/wasp/v4/wasp/auth"
 	"github.com/vx-labs/wasp/v4/wasp/distributed"
@@ -221,6 +222,43 @@ type e2eNode struct {
 	queued int64 // publishes handed to the publish workers of this node
 	out    [][]byte // broadcasts drained so far
 	bseq   int
+	race   *raceState // what the connection manager sees of the replicated state
+}
+
+// raceState hands the connection manager the node's replicated state with one addition: a one-shot
+// hook that runs right after the next ByClientID lookup has returned - the point in setup between
+// "which session owns this client identifier" and "remove it, create mine". A script uses it to
+// let the owning session end (its DISCONNECT processed to completion) exactly there. Nothing is
+// altered: every call goes to the real state.
+type raceState struct {
+	distributed.State
+	mu   sync.Mutex
+	hook func()
+}
+
+func (r *raceState) arm(f func()) { r.mu.Lock(); r.hook = f; r.mu.Unlock() }
+func (r *raceState) take() func() {
+	r.mu.Lock()
+	defer r.mu.Unlock()
+	f := r.hook
+	r.hook = nil
+	return f
+}
+func (r *raceState) SessionMetadatas() distributed.SessionMetadatasState {
+	return raceSessions{SessionMetadatasState: r.State.SessionMetadatas(), r: r}
+}
+
+type raceSessions struct {
+	distributed.SessionMetadatasState
+	r *raceState
+}
+
+func (s raceSessions) ByClientID(mountPoint, id string) (api.SessionMetadatas, error) {
+	m, err := s.SessionMetadatasState.ByClientID(mountPoint, id)
+	if f := s.r.take(); f != nil {
+		f()
+	}
+	return m, err
 }
 
 type e2eCluster struct {
@@ -303,7 +341,8 @@ func newE2ECluster(ids []uint64) *e2eCluster {
 		go w.Run(ctx, n.log)
 		pp := &ppWrap{PacketProcessor: wasp.NewPacketProcessor(n.local, n.dstate, n.ww, n.taps, dist, n.q), queued: &n.queued}
 		go pp.Run(ctx)
-		n.mgr = wasp.NewConnectionManager(scriptAuth{&c.sessN}, n.local, n.dstate, n.ww, pp, n.q)
+		n.race = &raceState{State: n.dstate}
+		n.mgr = wasp.NewConnectionManager(scriptAuth{&c.sessN}, n.local, n.race, n.ww, pp, n.q)
 		go n.mgr.Run(ctx)
 		n.mm = wasp.NewNodeMemberManager(id, n.log, n.dstate)
 		lis := bufconn.Listen(1 << 20)
